@@ -47,7 +47,8 @@ def bounds(tier):
 # ----------------------------------------------------------- value grammar
 # A value spec is a nested tuple: ('leaf', s) | ('cfg', V) | ('af', V) |
 # ('par', V) | ('list1', V) | ('list2', V) | ('tuple', V) | ('dict', V)
-KINDS = ('cfg', 'af', 'par', 'list1', 'list2', 'tuple', 'dict')
+KINDS = ('cfg', 'af', 'par', 'list1', 'list2', 'tuple', 'dict',
+         'afp', 'afv', 'parp')   # ...p: positional-only arg, ...v: via *args
 
 
 def gen(depth, af_ok=True):
@@ -55,19 +56,20 @@ def gen(depth, af_ok=True):
   if depth == 0:
     return
   for k in KINDS:
-    if k == 'af' and not af_ok:
+    if k in ('af', 'afp', 'afv') and not af_ok:
       continue
     child_af_ok = af_ok
     if k == 'cfg':
       child_af_ok = False
-    if k in ('af', 'par'):
+    if k in ('af', 'par', 'afp', 'afv', 'parp'):
       child_af_ok = True
     for v in gen(depth - 1, child_af_ok):
       yield (k, v)
 
 
 def contains(spec, kind):
-  return spec[0] == kind or (spec[0] != 'leaf' and contains(spec[1], kind))
+  return spec[0].startswith(kind) or (
+      spec[0] != 'leaf' and contains(spec[1], kind))
 
 
 def materialize(spec, leafval='L'):
@@ -81,6 +83,12 @@ def materialize(spec, leafval='L'):
     return fdl.ArgFactory(N.node_b, x=v)
   if k == 'par':
     return fdl.Partial(N.node_nd, y=v)
+  if k == 'afp':
+    return fdl.ArgFactory(N.node_pos, v)
+  if k == 'afv':
+    return fdl.ArgFactory(N.node_pos, 'p', 'a', v, 'w')
+  if k == 'parp':
+    return fdl.Partial(N.node_pos, v)
   if k == 'list1':
     return [v]
   if k == 'list2':
